@@ -214,7 +214,16 @@ class Parser:
                 self.next()
                 neg = True
             v = self.number(self.next()[1])
-            return ("plit", -v if neg else v)
+            v = -v if neg else v
+            if self.at("..="):
+                self.next()
+                neg2 = False
+                if self.at("-"):
+                    self.next()
+                    neg2 = True
+                w = self.number(self.next()[1])
+                return ("prange", v, -w if neg2 else w)
+            return ("plit", v)
         if self.at("true") or self.at("false"):
             return ("pbool", self.next()[1] == "true")
         path = [self.ident()]
@@ -372,7 +381,7 @@ class Parser:
                     self.next()
                     guard = self.expr()
                 self.expect("=>")
-                body = self.expr()
+                body = self.block() if self.at("{") else self.expr()
                 if self.at(","):
                     self.next()
                 arms.append((p, guard, body))
@@ -520,11 +529,22 @@ class Parser:
                 it = self.expr(nostruct=True)
                 stmts.append(("for", p, it, self.block()))
                 continue
+            if self.at("if") or self.at("match") or self.at("{"):
+                # block-like expression statement: ends at its closing brace (no postfix / binary continuation)
+                e = self.primary(False)
+                if self.at("}"):
+                    tail = e
+                    break
+                if self.at(";"):
+                    self.next()
+                stmts.append(("expr", e))
+                continue
             e = self.expr()
             if self.peek()[0] == "op" and self.peek()[1] in ("=", "+=", "-=", "*=", "/=", "%="):
                 op = self.next()[1]
                 rhs = self.expr()
-                self.expect(";")
+                if not self.at("}"):
+                    self.expect(";")
                 stmts.append(("assign", e, op, rhs))
                 continue
             if self.at(";"):
@@ -714,6 +734,50 @@ STRUCTS = {
     "LeapSecond": {"unix_leap_time": ("unixLeapTime", "i64"), "correction": ("correction", "i32")},
 }
 
+def _t(x):
+    return x
+
+
+STRUCTS.update({
+    "AlternateTime": {"std": ("std", "LocalTimeType"), "dst": ("dst", "LocalTimeType"), "dst_start": ("dstStart", "RuleDay"), "dst_start_time": ("dstStartTime", "i32"),
+                      "dst_end": ("dstEnd", "RuleDay"), "dst_end_time": ("dstEndTime", "i32")},
+    "MonthWeekDay": {"month": ("month", "u8"), "week": ("week", "u8"), "week_day": ("weekDay", "u8")},
+    "JulianDayCheckInfos": {"start_normal_year_offset": ("startNormalYearOffset", "i64"), "end_normal_year_offset": ("endNormalYearOffset", "i64"),
+                            "start_leap_year_offset": ("startLeapYearOffset", "i64"), "end_leap_year_offset": ("endLeapYearOffset", "i64")},
+    "MonthWeekDayCheckInfos": {"start_normal_year_offset_range": ("startNormalYearOffsetRange", ("tuple", [("i64",), ("i64",)])),
+                               "end_normal_year_offset_range": ("endNormalYearOffsetRange", ("tuple", [("i64",), ("i64",)])),
+                               "start_leap_year_offset_range": ("startLeapYearOffsetRange", ("tuple", [("i64",), ("i64",)])),
+                               "end_leap_year_offset_range": ("endLeapYearOffsetRange", ("tuple", [("i64",), ("i64",)]))},
+    "TimeZoneRef": {"transitions": ("transitions", ("slice", ("named", "Transition"))), "local_time_types": ("localTimeTypes", ("slice", ("named", "LocalTimeType"))),
+                    "leap_seconds": ("leapSeconds", ("slice", ("named", "LeapSecond"))), "extra_rule": ("extraRule", ("option", ("named", "TransitionRule")))},
+})
+# structures that exist only in the translation (TzVerif.Src, SrcPrelude.lean); everything else is TzVerif.Model
+SRC_STRUCTS = {"MonthWeekDay", "JulianDayCheckInfos", "MonthWeekDayCheckInfos"}
+LEAN_TYPE_NAME = {"TimeZoneRef": "TzVerif.Model.TimeZone"}
+# tuple structs with one field: the field itself
+NEWTYPES = {"Julian1WithoutLeap": "u16", "Julian0WithLeap": "u16"}
+# enums with payloads: variant -> (lean constructor, payload kinds)
+ENUMS = {
+    "RuleDay": {"Julian1WithoutLeap": ("TzVerif.Model.RuleDay.julian1", ["Julian1WithoutLeap"]), "Julian0WithLeap": ("TzVerif.Model.RuleDay.julian0", ["Julian0WithLeap"]),
+                "MonthWeekDay": ("TzVerif.Model.RuleDay.mwd", ["MonthWeekDay"])},
+    "TransitionRule": {"Fixed": ("TzVerif.Model.TransitionRule.fixed", ["LocalTimeType"]), "Alternate": ("TzVerif.Model.TransitionRule.alternate", ["AlternateTime"])},
+}
+
+
+def field_type(ft):
+    if isinstance(ft, tuple):
+        return ft
+    if ft in INT_TYPES or ft in ("bool", "nat"):
+        return (ft,)
+    return ("named", ft)
+
+
+def struct_lean(name):
+    if name in LEAN_TYPE_NAME:
+        return LEAN_TYPE_NAME[name]
+    return ("TzVerif.Src." if name in SRC_STRUCTS else "TzVerif.Model.") + name
+
+
 ERROR_ENUMS = {"TzError", "DateTimeError", "LocalTimeTypeError", "TransitionRuleError", "TimeZoneError", "TzFileError", "TzStringError", "ParseDataError"}
 # `?` / From conversions into TzError
 FROM_TZERROR = {"DateTimeError": "dateTime", "LocalTimeTypeError": "localTimeType", "TransitionRuleError": "transitionRule", "TimeZoneError": "timeZone",
@@ -743,7 +807,9 @@ def lean_ty(t):
             return "Ordering"
         if t[1] == "Self":
             raise TransError("unresolved Self")
-        return "TzVerif.Model." + t[1]
+        if t[1] in NEWTYPES:
+            return "Int"
+        return struct_lean(t[1])
     raise TransError("type %r" % (t,))
 
 
@@ -769,6 +835,7 @@ class Fn:
         self.body = body
         self.cfg = cfg
         self.loop_no = 0
+        self.post = []
 
     def resolve(self, t):
         if t is None:
@@ -834,18 +901,20 @@ class Fn:
         if k == "index":
             s, t = self.ex(e[1], env)
             i, _ = self.ex(e[2], env)
-            t = strip_ref(t)
-            el = t[1] if t[0] == "slice" else ("int",)
+            t = strip_ref(t) if t else None
+            el = t[1] if (t and t[0] == "slice") else ("i64",)
             return ("(Src.idx %s %s)" % (s, i), el)
         if k == "field":
             s, t = self.ex(e[1], env)
             return self.field(s, strip_ref(t), e[2])
         if k == "tfield":
             s, t = self.ex(e[1], env)
-            t = strip_ref(t)
-            n = len(t[1]) if t[0] == "tuple" else 2
+            t = strip_ref(t) if t else t
+            if t and t[0] == "named" and t[1] in NEWTYPES and e[2] == 0:
+                return (s, (NEWTYPES[t[1]],))
+            n = len(t[1]) if (t and t[0] == "tuple") else 2
             proj = ".1" if e[2] == 0 else (".2" if n == 2 else ".2" * e[2] + (".1" if e[2] < n - 1 else ""))
-            return ("%s%s" % (s, proj), t[1][e[2]] if t[0] == "tuple" else None)
+            return ("%s%s" % (s, proj), t[1][e[2]] if (t and t[0] == "tuple") else None)
         if k == "mcall":
             return self.mcall(e, env)
         if k == "call":
@@ -858,15 +927,65 @@ class Fn:
                 raise TransError("struct literal %s" % name)
             fs = []
             for f, v in e[2]:
-                s, _ = self.ex(v, env)
+                s, _ = self.ex(v, env, want=field_type(STRUCTS[name][f][1]))
                 fs.append("%s := %s" % (STRUCTS[name][f][0], s))
-            return ("({ %s } : TzVerif.Model.%s)" % (", ".join(fs), name), ("named", name))
+            return ("({ %s } : %s)" % (", ".join(fs), struct_lean(name)), ("named", name))
         if k in ("if", "iflet", "match", "block"):
             # value position: translate as a statement list whose continuation is the identity
-            return (self.value_block(e, env), None)
+            return (self.value_block(e, env), self.ty_of(e, env))
         if k == "unreachable":
             return ("default", None)
         raise TransError("expression %s" % k)
+
+    def ty_of(self, e, env):
+        """Rust type of an expression, best effort (None when not inferred)"""
+        if e is None:
+            return ("unit",)
+        k = e[0]
+        try:
+            if k == "block":
+                env2 = dict(env)
+                for s in e[1]:
+                    if s[0] == "let" and s[3] is not None:
+                        t = self.resolve(s[2]) or self.ty_of(s[3], env2)
+                        saved = self.post
+                        self.post = []
+                        self.pat(s[1], env2, t)
+                        self.post = saved
+                return self.ty_of(e[2], env2) if e[2] is not None else ("unit",)
+            if k == "if":
+                if not self.diverges(e[2]):
+                    t = self.ty_of(e[2], env)
+                    if t is not None:
+                        return t
+                return self.ty_of(e[3], env) if e[3] is not None else ("unit",)
+            if k == "iflet":
+                return self.ty_of(e[3], env)
+            if k == "match":
+                _, st = self.ex(e[1], env)
+                for p, g, body in e[2]:
+                    if self.diverges(body) or body[0] in ("return", "unreachable"):
+                        continue
+                    env2 = dict(env)
+                    saved = self.post
+                    self.post = []
+                    try:
+                        self.pat(p, env2, st)
+                    except TransError:
+                        pass
+                    self.post = saved
+                    t = self.ty_of(body, env2)
+                    if t is not None:
+                        return t
+                return None
+            if k in ("return", "break", "unreachable"):
+                return None
+            saved_loop = self.loop_no
+            t = self.ex(e, env)[1]
+            self.loop_no = saved_loop
+            return t
+        except TransError:
+            return None
 
     def value_block(self, e, env):
         blk = e if e[0] == "block" else ("block", [], e)
@@ -916,7 +1035,7 @@ class Fn:
     def field(self, s, t, f):
         if t and t[0] == "named" and t[1] in STRUCTS and f in STRUCTS[t[1]]:
             lf, ft = STRUCTS[t[1]][f]
-            rt = (ft,) if ft in INT_TYPES or ft in ("bool", "nat") else ("named", ft)
+            rt = field_type(ft)
             if ft == "nat":
                 return ("(%s.%s : Int)" % (s, lf), ("usize",))
             return ("%s.%s" % (s, lf), rt)
@@ -991,6 +1110,17 @@ class Fn:
         if len(path) >= 2 and path[-2] in ERROR_ENUMS:
             s, _ = self.ex(args[0], env)
             return ("(TzVerif.Model.%s.%s %s)" % (path[-2], lower_first(name), s), ("named", path[-2]))
+        if len(path) == 1 and (name == "Self" and self.owner in NEWTYPES or name in NEWTYPES):
+            nt = self.owner if name == "Self" else name
+            s, _ = self.ex(args[0], env, want=(NEWTYPES[nt],))
+            return (s, ("named", nt))
+        if len(path) >= 2 and (path[-2] if path[-2] != "Self" else self.owner) in ENUMS:
+            en = path[-2] if path[-2] != "Self" else self.owner
+            ctor, kinds = ENUMS[en][name]
+            s, _ = self.ex(args[0], env)
+            if kinds == ["MonthWeekDay"]:
+                return ("(%s %s.month %s.week %s.weekDay)" % (ctor, s, s, s), ("named", en))
+            return ("(%s %s)" % (ctor, s), ("named", en))
         q = name
         if len(path) >= 2:
             head = path[-2]
@@ -1046,6 +1176,19 @@ class Fn:
             if len(path) >= 2 and path[-2] in ERROR_ENUMS:
                 s = "TzVerif.Model.%s.%s" % (path[-2], lower_first(name))
                 return s if not subs else "%s %s" % (s, " ".join(paren(self.pat(x, env, None)) for x in subs))
+            en = None
+            if len(path) >= 2:
+                en = path[-2] if path[-2] != "Self" else self.owner
+            if en in ENUMS:
+                ctor, kinds = ENUMS[en][name]
+                if kinds == ["MonthWeekDay"]:
+                    if subs[0][0] != "pvar":
+                        raise TransError("MonthWeekDay payload pattern")
+                    v = subs[0][1]
+                    env[v] = ("named", "MonthWeekDay")
+                    self.post.append("let %s : TzVerif.Src.MonthWeekDay := { month := %s_m, week := %s_w, weekDay := %s_d }" % (vname(v), v, v, v))
+                    return "%s %s_m %s_w %s_d" % (ctor, v, v, v)
+                return "%s %s" % (ctor, paren(self.pat(subs[0], env, ("named", kinds[0]))))
             raise TransError("pattern %s" % "::".join(path))
         if k == "pstruct":
             name = p[1][-1]
@@ -1054,7 +1197,7 @@ class Fn:
             fs = []
             for f, sp in p[2]:
                 lf, ft = STRUCTS[name][f]
-                ftt = (ft,) if ft in INT_TYPES or ft == "bool" else ("named", ft)
+                ftt = field_type(ft)
                 fs.append("%s := %s" % (lf, self.pat(sp, env, ftt)))
             return "{ %s }" % ", ".join(fs)
         raise TransError("pattern kind %s" % k)
@@ -1156,6 +1299,8 @@ class Fn:
             if e[0] in ("call", "mcall"):
                 raise TransError("expression statement with effects: %s" % e[0])
             return cont(env)
+        if kind == "rawlet":
+            return s[1] + "\n" + cont(env)
         if kind == "while":
             return self.loop(s, env, cont, ctx)
         if kind == "for":
@@ -1173,6 +1318,8 @@ class Fn:
     def tail(self, e, env, k, ctx):
         if e[0] in ("return", "break"):
             return self.leave(e, env, ctx)
+        if e[0] == "unreachable":
+            return "default"
         if e[0] in ("if", "iflet", "match", "block"):
             return self.branching(e, env, None, ctx, value_k=k)
         if e[0] == "try":
@@ -1186,7 +1333,10 @@ class Fn:
         if init[0] == "try":
             s, ti = self.ex(init[1], env)
             env2 = dict(env)
+            self.post = []
             okp = self.pat(p, env2, ti[1] if ti and ti[0] == "result" else t)
+            if self.post:
+                raise TransError("payload pattern after ?")
             conv = "e"
             if ti and ti[0] == "result" and self.ret and self.ret[0] == "result":
                 et, rt = strip_ref(ti[2]), strip_ref(self.ret[2])
@@ -1197,18 +1347,35 @@ class Fn:
                         raise TransError("? converts %r into %r" % (et, rt))
             return "match %s with\n| .ok %s =>\n%s\n| .error e => %s" % (s, paren(okp), indent(cont(env2)), ctx["ret"]("(Except.error %s)" % conv))
         if init[0] in ("match", "if", "iflet", "block") and self.may_leave(init):
+            if t is None:
+                t = self.ty_of(init, env)
+            if self.completing_arms(init) > 1:
+                # several arms yield a value and some return early: a Src.Flow value, so that what follows is
+                # written once
+                ctx2 = self.flow_ctx(ctx)
+                text = self.branching(init, env, None, ctx2, value_k=lambda v, env2: "Src.Flow.val %s" % paren(v))
+                env2 = dict(env)
+                self.post = []
+                pt = self.pat(p, env2, t)
+                post, self.post = self.post, []
+                return "match %s with\n| .ret __r => %s\n| .val %s =>\n%s" % (paren_block(text), ctx["ret"]("__r"), paren(pt), indent("".join(l + "\n" for l in post) + cont(env2)))
+
             def value_k(vtext, env_in):
                 env2 = dict(env_in)
+                self.post = []
                 pt = self.pat(p, env2, t)
-                return "let %s := %s\n%s" % (pt, vtext, cont(env2))
+                post, self.post = self.post, []
+                return "let %s := %s\n%s%s" % (pt, vtext, "".join(l + "\n" for l in post), cont(env2))
             return self.branching(init, env, None, ctx, value_k=value_k)
         s, ti = self.ex(init, env, want=t)
         env2 = dict(env)
         ty = t if (t is not None and (keep_type or True)) else ti
         if t is None:
             ty = ti
+        self.post = []
         pt = self.pat(p, env2, ty)
-        return "let %s := %s\n%s" % (pt, s, cont(env2))
+        post, self.post = self.post, []
+        return "let %s := %s\n%s%s" % (pt, s, "".join(l + "\n" for l in post), cont(env2))
 
     @staticmethod
     def as_block(body):
@@ -1259,11 +1426,48 @@ class Fn:
             for head, blk, env_arm in blocks:
                 out.append((head, self.stmts(list(blk[1]), None, env_arm, lambda v, env2: tup, ctx)))
             return "let %s := %s\n%s" % (tup, paren_block(self.emit_arms(kind, scrut, out)), cont(env))
-        # some arm leaves: the continuation goes into every arm that completes normally
+        # some arm leaves. If at most one arm can complete normally the continuation goes into that arm; otherwise
+        # the construct becomes a Src.Flow value (early return, or the updated state) so that what follows is
+        # written once.
+        completing = [1 for _, blk, _ in blocks if not self.diverges(blk)]
+        if len(completing) <= 1:
+            out = []
+            for head, blk, env_arm in blocks:
+                out.append((head, self.stmts(list(blk[1]), None, env_arm, lambda v, env2: cont({n: env2[n] for n in env}), ctx)))
+            return self.emit_arms(kind, scrut, out)
+        names = []
+        for _, blk, _ in blocks:
+            for n in self.assigned(blk, []):
+                if n in env and n not in names:
+                    names.append(n)
+        tup = "()" if not names else (vname(names[0]) if len(names) == 1 else "(" + ", ".join(vname(n) for n in names) + ")")
+        ctx2 = self.flow_ctx(ctx)
         out = []
         for head, blk, env_arm in blocks:
-            out.append((head, self.stmts(list(blk[1]), None, env_arm, lambda v, env2: cont({n: env2[n] for n in env}), ctx)))
-        return self.emit_arms(kind, scrut, out)
+            out.append((head, self.stmts(list(blk[1]), None, env_arm, lambda v, env2: "Src.Flow.val %s" % tup, ctx2)))
+        return "match %s with\n| .ret __r => %s\n| .val %s =>\n%s" % (paren_block(self.emit_arms(kind, scrut, out)), ctx["ret"]("__r"), tup if names else "_", indent(cont(env)))
+
+    def flow_ctx(self, ctx):
+        def no_break(env2):
+            raise TransError("break inside a construct that also returns early, in %s" % self.qname)
+        c = dict(ctx)
+        c["ret"] = lambda v: "Src.Flow.ret %s" % paren(v)
+        if "brk" in c:
+            c["brk"] = no_break
+        return c
+
+    def completing_arms(self, e):
+        """number of arms of a value-position if / match that yield a value"""
+        k = e[0]
+        if k == "block":
+            return 0 if self.diverges(e) else (self.completing_arms(e[2]) if (e[2] is not None and e[2][0] in ("if", "iflet", "match", "block")) else 1)
+        if k == "if":
+            return self.completing_arms(self.as_block(e[2])) + (self.completing_arms(self.as_block(e[3]) if e[3][0] != "if" else e[3]) if e[3] is not None else 1)
+        if k == "iflet":
+            return self.completing_arms(self.as_block(e[3])) + (self.completing_arms(self.as_block(e[4])) if e[4] is not None else 1)
+        if k == "match":
+            return sum(self.completing_arms(self.as_block(b)) for _, _, b in e[2])
+        return 0 if self.diverges(e) else 1
 
     def check_no_shadow(self, blk, env):
         if blk is None or blk[0] != "block":
@@ -1294,21 +1498,99 @@ class Fn:
         if k == "iflet":
             s, t = self.ex(e[2], env)
             env1 = dict(env)
+            self.post = []
             pt = self.pat(e[1], env1, t)
-            return ("match", s, [(pt, e[3], env1), ("_", e[4], dict(env))])
+            post, self.post = self.post, []
+            return ("match", s, [(pt, self.with_post(post, e[3]), env1), ("_", e[4], dict(env))])
         if k == "match":
+            if any(g is not None or self.needs_chain(p) for p, g, _ in e[2]):
+                return self.chain_arms(e, env)
             s, t = self.ex(e[1], env)
             arms = []
             for p, guard, body in e[2]:
-                if guard is not None:
-                    raise TransError("match guard")
                 env1 = dict(env)
+                self.post = []
                 pt = self.pat(p, env1, t)
-                arms.append((pt, body, env1))
+                post, self.post = self.post, []
+                arms.append((pt, self.with_post(post, body), env1))
             return ("match", s, arms)
         raise TransError("arms of %s" % k)
 
+    @staticmethod
+    def with_post(post, body):
+        """prefix a body with raw Lean `let` lines produced by a pattern"""
+        if not post:
+            return body
+        blk = Fn.as_block(body)
+        return ("block", [("rawlet", l) for l in post] + list(blk[1]), blk[2])
+
+    def needs_chain(self, p):
+        if p[0] in ("plit", "prange", "pbool"):
+            return True
+        if p[0] in ("ptuple", "por"):
+            return any(self.needs_chain(x) for x in p[1])
+        return False
+
+    def chain_arms(self, e, env):
+        """match with guards / integer literal and range patterns: an if-chain over the scrutinee's components"""
+        scrut = e[1]
+        comps = scrut[1] if scrut[0] == "tuple" else [scrut]
+        cs = [self.ex(c, env) for c in comps]
+        arms = []
+        for p, guard, body in e[2]:
+            ps = p[1] if (p[0] == "ptuple" and scrut[0] == "tuple") else [p]
+            if p[0] == "pwild":
+                ps = [("pwild",)] * len(cs)
+            if len(ps) != len(cs):
+                raise TransError("pattern arity")
+            conds = []
+            lets = []
+            env1 = dict(env)
+            for sp, (ctext, ctype) in zip(ps, cs):
+                alts = sp[1] if sp[0] == "por" else [sp]
+                ors = []
+                for a in alts:
+                    if a[0] == "pwild":
+                        ors = None
+                        break
+                    if a[0] == "pvar":
+                        lets.append("let %s := %s" % (vname(a[1]), ctext))
+                        env1[a[1]] = ctype
+                        ors = None
+                        break
+                    if a[0] == "plit":
+                        ors.append("(decide (%s = %s))" % (ctext, a[1] if a[1] >= 0 else "(%d)" % a[1]))
+                    elif a[0] == "prange":
+                        ors.append("((decide (%s ≤ %s)) && (decide (%s ≤ %s)))" % (a[1], ctext, ctext, a[2]))
+                    elif a[0] == "pbool":
+                        ors.append(ctext if a[1] else "(!%s)" % ctext)
+                    else:
+                        raise TransError("pattern %s in a match with guards or ranges" % a[0])
+                if ors:
+                    conds.append(ors[0] if len(ors) == 1 else "(" + " || ".join(ors) + ")")
+            if guard is not None:
+                if lets:
+                    raise TransError("guard with bindings")
+                conds.append(self.ex(guard, env1)[0])
+            cond = "true" if not conds else (conds[0] if len(conds) == 1 else "(" + " && ".join(conds) + ")")
+            arms.append((cond, self.with_post(lets, body), env1))
+        return ("chain", None, arms)
+
     def emit_arms(self, kind, scrut, out):
+        if kind == "chain":
+            # the last arm that is unconditionally true closes the chain; without one the fall-through is the
+            # `unreachable!()` of an exhaustive Rust match: `default`
+            text = None
+            closed = False
+            for head, body in reversed(out):
+                if head == "true":
+                    text = body
+                    closed = True
+                elif text is None:
+                    text = "if %s then\n%s\nelse\n  default" % (head, indent(body))
+                else:
+                    text = "if %s then\n%s\nelse\n%s" % (head, indent(body), indent(text))
+            return text
         if kind == "if":
             (_, b1), (_, b2) = out
             return "if %s then\n%s\nelse\n%s" % (scrut, indent(b1), indent(b2))
@@ -1436,6 +1718,15 @@ CONFIG = {
             "UtcDateTime.from_timespec": {"fuel": {"1": "DAY_IN_MONTHS_LEAP_YEAR_FROM_MARCH.len() + 1"}},
             "UtcDateTime.from_total_nanoseconds": {}, "UtcDateTime.unix_time": {},
             "DateTime.new": {}, "DateTime.from_timespec_and_local": {}, "DateTime.from_total_nanoseconds_and_local": {},
+        },
+        "src/timezone/rule.rs": {
+            "Julian1WithoutLeap.new": {}, "Julian1WithoutLeap.transition_date": {}, "Julian1WithoutLeap.compute_check_infos": {},
+            "Julian0WithLeap.new": {}, "Julian0WithLeap.transition_date": {}, "Julian0WithLeap.compute_check_infos": {},
+            "MonthWeekDay.new": {}, "MonthWeekDay.transition_date": {}, "MonthWeekDay.compute_check_infos": {},
+            "RuleDay.transition_date": {}, "RuleDay.unix_time": {},
+            "check_two_julian_days": {}, "check_month_week_day_and_julian_day": {}, "check_two_month_week_days": {},
+            "check_dst_transition_rules_consistency": {},
+            "AlternateTime.new": {}, "AlternateTime.find_local_time_type": {}, "TransitionRule.find_local_time_type": {},
         },
     }
 }
